@@ -130,7 +130,6 @@ funcs: spif_mbuff_splice_from_ptr
 
 #define OLEN(o)   __CPROVER_old((o)->len)
 #define OLD_BYTE(o, k)  __CPROVER_old((o)->buff[VCLAMP((k), (o)->len)])
-long w_idx, w_cnt, w_n;
 
 #ifndef U_VIEW
 #ifdef U_SPLICE
